@@ -21,7 +21,7 @@ one() {
   res="SURVIVED"
   mkdir -p "$W.tmp"
   for p in $PROPS; do
-    o=$(cd /verif && DSIM_REPO="$W" DSIM_KEEP_EVIDENCE=1 DSIM_WORKERS=4 TMPDIR="$W.tmp" ./run.sh check "$p" quick 2>&1); rc=$?
+    o=$(cd "$HERE/.." && DSIM_REPO="$W" DSIM_KEEP_EVIDENCE=1 DSIM_WORKERS=4 TMPDIR="$W.tmp" ./run.sh check "$p" quick 2>&1); rc=$?
     if [ $rc = 1 ] && echo "$o" | grep -q "^VIOLATION property=$p "; then rules=$(echo "$o" | grep -o "rule [A-Za-z0-9-]*" | sort -u | head -4 | tr '\n' ' '); res="caught-by-$p $rules"; break; fi
     if [ $rc = 1 ]; then res="trouble-$p exit 1 without a VIOLATION line"; fi
     if [ $rc = 2 ]; then res="trouble-$p $(echo "$o" | tail -1 | cut -c1-100)"; fi
@@ -29,9 +29,9 @@ one() {
   echo -e "$name\t$res\t$desc"
   rm -rf "$W" "$W.tmp"
 }
-export -f one; export OUT FILE PKG PROPS
-mkdir -p /verif/mutation
-REPORT="/verif/mutation/$(echo "$FILE" | tr '/' '_').tsv"
+export -f one; export OUT FILE PKG PROPS HERE
+MUTDIR="${MUTATION_OUT:-$HERE/../mutation}"; mkdir -p "$MUTDIR"
+REPORT="$MUTDIR/$(echo "$FILE" | tr '/' '_').tsv"
 cut -f1 "$OUT/m/INDEX.tsv" | xargs -P "$PAR" -I{} bash -c 'mkdir -p "${TMPDIR:-/tmp}"; one {}' | sort > "$REPORT"
 rm -rf "$OUT"
 echo "report: $REPORT"
